@@ -1,15 +1,21 @@
-(* LoRa time on air as defined in Semtech AN1200.13 "LoRa Modem Designer's
-   Guide" section 4 (also SX1272/76 data sheets), over exact rationals:
+(* LoRa time on air as Semtech defines it, over exact rationals.
 
-     T_sym      = 2^SF / BW
-     T_preamble = (n_preamble + 4.25) * T_sym
-     n_payload  = 8 + max( ceil( (8 PL - 4 SF + 28 + 16 CRC - 20 IH) / (4 (SF - 2 DE)) ) * (CR + 4), 0 )
-     T_packet   = T_preamble + n_payload * T_sym
+   Sources (transcribed from memory, no network): AN1200.13 "LoRa Modem
+   Designer's Guide" section 4 / SX1272/76 data sheets for SF7..12, and the
+   SX1261/2 data sheet section 6.1.4 "LoRa Time-on-Air" (same in SX1280/1 and
+   LR11xx; reference driver LoRaMac-node RadioGetLoRaTimeOnAirNumerator) which
+   is the only definition for SF5 and SF6:
 
-   PL payload bytes, IH = 1 when the header is absent (implicit), DE = 1 with
-   low-data-rate optimisation, CR = 1..4, CRC = 1 (payload CRC present; the
-   implementation has no parameter for it).  BW is given in kHz, times are in
-   nanoseconds: T_sym = 2^SF * 10^6 / BW_kHz. *)
+     T_sym = 2^SF / BW
+     SF5, SF6 : N_sym = N_pre + 6.25 + 8 + ceil( max(8 PL + 16 CRC - 4 SF     + N_hdr, 0) / (4 SF) )          * (CR + 4)
+     SF7..12  : N_sym = N_pre + 4.25 + 8 + ceil( max(8 PL + 16 CRC - 4 SF + 8 + N_hdr, 0) / (4 (SF - 2 DE)) ) * (CR + 4)
+     ToA = N_sym * T_sym
+
+   PL payload bytes, N_hdr = 20 with the explicit header and 0 without, DE = 1
+   with low-data-rate optimisation (no such variant for SF5/SF6), CR = 1..4,
+   CRC = 1 (payload CRC present; the implementation has no parameter for it).
+   For SF7..12 this is AN1200.13's  8 + max(ceil((8PL - 4SF + 28 + 16CRC - 20IH) / (4(SF-2DE))) (CR+4), 0).
+   BW is given in kHz, times are in nanoseconds: T_sym = 2^SF * 10^6 / BW_kHz. *)
 From Coq Require Import ZArith QArith Qround Bool.
 Open Scope Q_scope.
 
@@ -18,15 +24,27 @@ Definition bq (b : bool) : Q := if b then 1 else 0.
 
 Definition spec_tsym (sf bw : Z) : Q := zq (2 ^ sf) * 1000000 / zq bw.
 
-Definition spec_npayload (pl sf cr : Z) (header ldro : bool) : Z :=
-  (8 + Z.max (Qceiling ((8 * zq pl - 4 * zq sf + 28 + 16 * 1 - 20 * bq (negb header))
-                         / (4 * (zq sf - 2 * bq ldro))) * (cr + 4)) 0)%Z.
+(* SF5 and SF6 are the spreading factors of the SX126x/SX128x generation only *)
+Definition low_sf (sf : Z) : bool := (sf <=? 6)%Z.
 
-Definition spec_tpreamble (sf bw pre : Z) : Q := (zq pre + 4.25) * spec_tsym sf bw.
+Definition spec_numerator (pl sf : Z) (header : bool) : Q :=
+  8 * zq pl + 16 * 1 - 4 * zq sf + (if low_sf sf then 0 else 8) + (if header then 20 else 0).
+
+Definition spec_denominator (sf : Z) (ldro : bool) : Q :=
+  if low_sf sf then 4 * zq sf else 4 * (zq sf - 2 * bq ldro).
+
+(* max(x, 0) *)
+Definition qmax0 (x : Q) : Q := if Qle_bool 0 x then x else 0.
+
+(* number of payload symbols, the 8 included *)
+Definition spec_npayload (pl sf cr : Z) (header ldro : bool) : Z :=
+  (8 + Qceiling (qmax0 (spec_numerator pl sf header) / spec_denominator sf ldro) * (cr + 4))%Z.
+
+Definition spec_preamble_symbols (sf pre : Z) : Q := zq pre + (if low_sf sf then 6.25 else 4.25).
+
+(* total number of symbols *)
+Definition spec_total_symbols (pl sf pre cr : Z) (header ldro : bool) : Q :=
+  spec_preamble_symbols sf pre + zq (spec_npayload pl sf cr header ldro).
 
 Definition spec_airtime (pl sf bw pre cr : Z) (header ldro : bool) : Q :=
-  spec_tpreamble sf bw pre + zq (spec_npayload pl sf cr header ldro) * spec_tsym sf bw.
-
-(* total number of symbols, preamble included *)
-Definition spec_total_symbols (pl sf pre cr : Z) (header ldro : bool) : Q :=
-  zq pre + 4.25 + zq (spec_npayload pl sf cr header ldro).
+  spec_total_symbols pl sf pre cr header ldro * spec_tsym sf bw.
